@@ -9,8 +9,22 @@ for d in seeded/*/; do
   PAIRS="$PAIRS$n $p\n"
 done
 # seeds that manifest through another property's machinery as well
-PAIRS="${PAIRS}C01-2 C09\nC04-2 C09\nC04-2 C10\nC10-2 C09\nC12-1 C10\nC09-4 C11\nC12-4 C11\nC12-3 C17\n"
-printf "$PAIRS" | grep -v "^C01-2 C01$\|^C09-4 C09$" | xargs -P 3 -L 1 sh -c 'tools/seed_run.sh $0 $1 '"$TIER"' 2>&1 | tail -1' > /tmp/seed_matrix.log 2>&1
+PAIRS="${PAIRS}C01-2 C09\nC04-2 C09\nC04-2 C10\nC10-2 C09\nC12-1 C10\nC09-4 C11\nC12-4 C11\nC12-3 C17\nC10-5 C09\nC10-6 C09\nC12-5 C13\nC12-6 C09\nC12-6 C10\nC08-4 C13\n"
+# SEED_FILTER (regex on "seed check" lines) re-runs only part of the matrix; the other rows are kept
+# from build/seed_matrix_rows.log (one line per pair, replaced when the pair is run again)
+FILTER=${SEED_FILTER:-.}
+mkdir -p build; touch build/seed_matrix_rows.log
+printf "$PAIRS" | grep -v "^C01-2 C01$\|^C09-4 C09$" | grep -E "$FILTER" | xargs -P ${SEED_JOBS:-3} -L 1 sh -c 'tools/seed_run.sh $0 $1 '"$TIER"' 2>&1 | tail -1' > /tmp/seed_matrix.log 2>&1
+/venv/bin/python - <<'PY'
+import re
+rows={}
+for path in ('/verif/build/seed_matrix_rows.log','/tmp/seed_matrix.log'):
+    for line in open(path):
+        m=re.match(r'SEEDRUN (\S+) on (\S+)/(\S+): ',line)
+        if m: rows[(m.group(1),m.group(2))]=line
+open('/verif/build/seed_matrix_rows.log','w').writelines(rows[k] for k in sorted(rows))
+open('/tmp/seed_matrix.log','w').writelines(rows[k] for k in sorted(rows))
+PY
 /venv/bin/python - <<'PY'
 import json,re,os,subprocess
 head=subprocess.check_output(['git','-C','/repo','rev-parse','--short','HEAD'],text=True).strip()
